@@ -2730,7 +2730,7 @@ def run(chk: core.Check):
                 "set_postselection/min_detected_photons_filter/probs: joint probabilities, physical_perf, logical_perf, "
                 "key shapes and normalisation against the model of _postprocess_bsd, the model against the "
                 "specification (exactly when the enlarged matrix is exactly unitary), disagreements classified by "
-                "numpy permanents conditioned in Python. Detector cases (24 / 450): the same lossy programs with one "
+                "numpy permanents conditioned in Python. Detector cases (24 / 300): the same lossy programs with one "
                 "detector per original mode from None / Detector.pnr / Detector.threshold / Detector.ppnr(2-4 wires, "
                 "max_detections None/2/3) (12% all-PNR lists, 12% all-threshold lists), heralds (list entry point), "
                 "post-selection, min_detected_photons 0-3, at least one input with two or more photons, through "
@@ -2738,7 +2738,7 @@ def run(chk: core.Check):
                 "results, physical_perf, logical_perf, key shapes against the model of _prepare_detectors_impl + "
                 "simulate_detectors + _postprocess_bsd, the model against the specification (detectors on the marginal, "
                 "one conditioning) and the commutation theorem on the wire; oracle: numpy permanents, marginal, detectors "
-                "and conditioning in Python. Noisy-source-with-selection cases (12 / 300): half through "
+                "and conditioning in Python. Noisy-source-with-selection cases (12 / 200): half through "
                 "SimulatorFactory.build(list).probs_svd on an explicit source distribution (2-5 Fock inputs, dyadic "
                 "weights; every fourth case has inputs below and above min_detected_photons so that the inner simulator "
                 "drops some of them) with set_selection(heralds 0-3 photons, post-selection, filter)/keep_heralds, half "
@@ -2815,9 +2815,9 @@ def run(chk: core.Check):
         handle_thin(chk, gen_thin_case(rng, chk))
     for i in range(chk.pick(110, 1100)):
         handle_sel(chk, gen_sel_case(rng, chk))
-    for i in range(chk.pick(24, 450)):
+    for i in range(chk.pick(24, 300)):
         handle_det(chk, gen_det_case(rng, chk, i))
-    for i in range(chk.pick(12, 300)):
+    for i in range(chk.pick(12, 200)):
         handle_msel(chk, gen_msel_case(rng, chk, i))
 
 
